@@ -168,3 +168,15 @@ Example ex_pipeline :
   | _ => None end
   = Some ([0; 1; 2; 2], [1; 2; 0; 0], [-1; -1; -1; 2]).
 Proof. vm_compute. reflexivity. Qed.
+
+(* deduplicate_sites on the sorted example: positions 2, 4, 4 -> 2, 4; the two mutations of the
+   second site at position 4 move to the first one *)
+Example ex_dedup :
+  match table_sort Qmerge None ex_tables with
+  | Ok t1 => (check_refs t1, map s_pos (t_sites t1),
+              match deduplicate_sites t1 with
+              | Ok t2 => Some (map s_pos (t_sites t2), map m_site (t_muts t2))
+              | _ => None end)
+  | _ => (false, [], None)
+  end = (true, [2; 4; 4], Some ([2; 4], [0; 1; 1; 1])).
+Proof. vm_compute. reflexivity. Qed.
